@@ -770,7 +770,7 @@ impl TDigestMut {
                 let centroids_weight = self.centroids_weight as f64;
                 let q0 = weight_so_far / centroids_weight;
                 let q2 = (weight_so_far + proposed_weight) / centroids_weight;
-                let normalizer = scale_function::normalizer((2 * self.k) as f64, centroids_weight);
+                let normalizer = scale_function::normalizer(2. * self.k as f64, centroids_weight);
                 add_this = proposed_weight
                     <= (centroids_weight
                         * scale_function::max(q0, normalizer)
